@@ -1,7 +1,7 @@
 """C20 - duplicated rules never contradict each other."""
 import common
 
-THEOREMS = ["c20_label_pairs", "c20_uri_host_pair", "c20_uri_host_old_refuted", "c20_mirror", "c20_limit_pairs", "c20_name_twins", "c20_san_ian_twins", "c20_pub_suffix_copy_differs", "c20_raw_twins", "c20_issuer_url_twins", "c20_cdp_url_twins", "c20_strict_implies_legacy", "c20_cs_cdp_stricter", "c20_scheme_is_not_prefix", "c20_locality_rules_exclusive", "c20_province_rules_exclusive", "c20_locality_province_same", "c20_dv_values_imply_no_conflict", "c20_cert_sign_rules_agree", "c20_ku_missing_rules", "c20_root_ku_critical_same"]
+THEOREMS = ["c20_label_pairs", "c20_uri_host_pair", "c20_uri_host_old_refuted", "c20_mirror", "c20_limit_pairs", "c20_name_twins", "c20_san_ian_twins", "c20_pub_suffix_copy_differs", "c20_raw_twins", "c20_issuer_url_twins", "c20_cdp_url_twins", "c20_strict_implies_legacy", "c20_cs_cdp_stricter", "c20_scheme_is_not_prefix", "c20_locality_rules_exclusive", "c20_province_rules_exclusive", "c20_locality_province_same", "c20_dv_values_imply_no_conflict", "c20_cert_sign_rules_agree", "c20_ku_missing_rules", "c20_root_ku_critical_same", "c20_same_marking_rules_agree", "c20_criticality_table_consistent", "c20_criticality_satisfiable", "c20_serial_too_long_exact", "c20_version_rules", "c20_uid_rules", "c20_nc_min_total", "c20_nc_max_skips_permitted_email", "c20_ia5_implies_not_utf8", "c20_ev_country_is_policy_rule", "c20_ev_org_is_ov_rule", "c20_rsa_strict_accepts", "c20_rsa_strict_implies_legacy", "c20_type_and_other_partition", "c20_sub_ca_aia_same_test", "c20_subscriber_ski_always_warned", "c20_rsa_ca_error_implies_ee_error", "c20_ecdsa_error_implies_ee_notice"]
 
 
 def run(ctx):
@@ -33,6 +33,66 @@ def run(ctx):
     common.require_outcomes(ctx, "caku", d["cases"].get("caku", []), [{"1", "3", "6"}] * 3 + [{"1", "3", "5"}] * 2 + [{"1", "3", "6"}, {"1", "3", "4"}] + [{"1", "3", "6"}] * 8 + [{"1", "3", "5"}, {"1", "3", "4"}, {"1", "3", "6"}, {"1", "3", "6"}])
     if not mon:
         common.report_disagreements(ctx, "caku", fk, "Kernels.CaKu.all_ca_ku_lints", [])
+    cheader = ("From ZL Require Import Base.Bytes Base.Corr Kernels.Crit.\nFrom Coq Require Import ZArith List.\nImport ListNotations.\nOpen Scope Z_scope.\n"
+               "Fixpoint zl_eqc (a b : list Z) : bool := match a, b with [], [] => true | x :: a', y :: b' => (x =? y) && zl_eqc a' b' | _, _ => false end.\n"
+               "Definition chkcr (c : crit_view * list Z) : bool := zl_eqc (all_crit_lints (fst c)) (snd c).\n")
+    fcr = common.corr_stream(ctx, "crit", d["cases"].get("crit", []), cheader, "chkcr",
+                             "Crit.all_crit_lints (twenty criticality lints as one table-driven rule with their CheckApplies) vs the real lints")
+    common.require_outcomes(ctx, "crit", d["cases"].get("crit", []), [{"1", "3", "6"}, {"1", "3", "6"}, {"1", "3", "5"}, {"1", "3", "6"}, {"1", "3", "5"}, {"1", "3", "6"}, {"1", "3", "6"}, {"1", "3", "5"},
+                                                                      {"1", "3", "6"}, {"1", "3", "6"}, {"1", "3", "6"}, {"1", "3", "6"}, {"1", "3", "6"}, {"1", "3", "5"}, {"1", "3", "6"}, {"1", "3", "5"},
+                                                                      {"1", "3", "6"}, {"1", "3", "5"}, {"1", "3", "6"}, {"1", "3", "6"}])
+    if not mon:
+        common.report_disagreements(ctx, "crit", fcr, "Kernels.Crit.all_crit_lints", [])
+    hheader = ("From ZL Require Import Base.Bytes Base.Corr Kernels.Header.\nFrom Coq Require Import ZArith List.\nImport ListNotations.\nOpen Scope Z_scope.\n"
+               "Fixpoint zl_eqh (a b : list Z) : bool := match a, b with [], [] => true | x :: a', y :: b' => (x =? y) && zl_eqh a' b' | _, _ => false end.\n"
+               "Definition chkh (c : header_view * list Z) : bool := zl_eqh (all_header_lints (fst c)) (snd c).\n")
+    fh = common.corr_stream(ctx, "header", d["cases"].get("header", []), hheader, "chkh",
+                            "Header.all_header_lints (serial number length / sign, SHA-1, unique identifiers, version rules) vs the real lints by direct call")
+    common.require_outcomes(ctx, "header", d["cases"].get("header", []), [{"3", "6"}] * 7)
+    if not mon:
+        common.report_disagreements(ctx, "header", fh, "Kernels.Header.all_header_lints", [])
+    nheader = ("From ZL Require Import Base.Bytes Base.Corr Kernels.NcForm.\nFrom Coq Require Import ZArith List.\nImport ListNotations.\nOpen Scope Z_scope.\n"
+               "Fixpoint zl_eqn (a b : list Z) : bool := match a, b with [], [] => true | x :: a', y :: b' => (x =? y) && zl_eqn a' b' | _, _ => false end.\n"
+               "Definition chkn (c : nc_view * list Z) : bool := zl_eqn (all_nc_form_lints (fst c)) (snd c).\n")
+    fnc = common.corr_stream(ctx, "ncform", d["cases"].get("ncform", []), nheader, "chkn",
+                             "NcForm.all_nc_form_lints (minimum / maximum fields, unusual name forms, nameConstraints outside a CA) vs the real lints")
+    common.require_outcomes(ctx, "ncform", d["cases"].get("ncform", []), [{"1", "3", "6"}, {"1", "3", "6"}, {"1", "3", "5"}, {"1", "3", "5"}, {"1", "3", "5"}, {"1", "3", "6"}])
+    if not mon:
+        common.report_disagreements(ctx, "ncform", fnc, "Kernels.NcForm.all_nc_form_lints", [])
+    qheader = ("From ZL Require Import Base.Bytes Base.Corr Kernels.Scope Kernels.Policies.\nFrom Coq Require Import ZArith List.\nImport ListNotations.\nOpen Scope Z_scope.\n"
+               "Fixpoint zl_eqq (a b : list Z) : bool := match a, b with [], [] => true | x :: a', y :: b' => (x =? y) && zl_eqq a' b' | _, _ => false end.\n"
+               "Definition chkq (c : pol_view * list Z) : bool := zl_eqq (all_policy_lints (fst c)) (snd c).\n")
+    fq = common.corr_stream(ctx, "policies", d["cases"].get("policies", []), qheader, "chkq",
+                            "Policies.all_policy_lints (duplicate policies, noticeRef, explicitText string types; what the parser extracted as input) vs the real lints")
+    common.require_outcomes(ctx, "policies", d["cases"].get("policies", []), [{"3", "6"}, {"3", "5"}, {"1", "3", "6"}, {"1", "3", "5"}])
+    if not mon:
+        common.report_disagreements(ctx, "policies", fq, "Kernels.Policies.all_policy_lints", [])
+    sheader = ("From ZL Require Import Base.Bytes Base.Corr Kernels.SmimeKu.\nFrom Coq Require Import ZArith List.\nImport ListNotations.\nOpen Scope Z_scope.\n"
+               "Fixpoint zl_eqs (a b : list Z) : bool := match a, b with [], [] => true | x :: a', y :: b' => (x =? y) && zl_eqs a' b' | _, _ => false end.\n"
+               "Definition chks (c : Z * list Z) : bool := zl_eqs (all_smime_ku_lints (fst c)) (snd c).\n")
+    fs = common.corr_stream(ctx, "smimeku", d["cases"].get("smimeku", []), sheader, "chks",
+                            "SmimeKu.all_smime_ku_lints vs the six S/MIME key-usage bodies on every value of the nine key-usage bits (0..1023: the whole domain, not a sample)")
+    common.require_outcomes(ctx, "smimeku", d["cases"].get("smimeku", []), [{"1", "3", "6"}] * 5 + [{"3", "6"}])
+    ctx.oblige("stream smimeku is exhaustive: 1024 key-usage values", len(d["cases"].get("smimeku", [])) == 1024)
+    if not mon:
+        common.report_disagreements(ctx, "smimeku", fs, "Kernels.SmimeKu.all_smime_ku_lints", [])
+    xheader = ("From ZL Require Import Base.Bytes Base.Corr Kernels.Crit Kernels.ExtPresence.\nFrom Coq Require Import ZArith List.\nImport ListNotations.\nOpen Scope Z_scope.\n"
+               "Fixpoint zl_eqx (a b : list Z) : bool := match a, b with [], [] => true | x :: a', y :: b' => (x =? y) && zl_eqx a' b' | _, _ => false end.\n"
+               "Definition chkx (c : crit_view * list Z) : bool := zl_eqx (all_presence_ext_lints (fst c)) (snd c).\n")
+    fx = common.corr_stream(ctx, "extpres", d["cases"].get("extpres", []), xheader, "chkx",
+                            "ExtPresence.all_presence_ext_lints (ten must-carry / must-not-carry extension lints as one table-driven rule with their CheckApplies) vs the real lints")
+    common.require_outcomes(ctx, "extpres", d["cases"].get("extpres", []), [{"1", "3", "6"}, {"1", "3", "5"}, {"1", "3", "6"}, {"1", "3", "6"}, {"1", "3", "6"}, {"1", "3", "6"}, {"1", "3", "6"}, {"1", "3", "5"}, {"1", "3", "5"}, {"1", "3", "5"}])
+    if not mon:
+        common.report_disagreements(ctx, "extpres", fx, "Kernels.ExtPresence.all_presence_ext_lints", [])
+    mheader = ("From ZL Require Import Base.Bytes Base.Corr Kernels.KuMasks.\nFrom Coq Require Import ZArith List.\nImport ListNotations.\nOpen Scope Z_scope.\n"
+               "Fixpoint zl_eqm (a b : list Z) : bool := match a, b with [], [] => true | x :: a', y :: b' => (x =? y) && zl_eqm a' b' | _, _ => false end.\n"
+               "Definition chkm (c : Z * list Z) : bool := zl_eqm (all_ku_mask_lints (fst c)) (snd c).\n")
+    fm = common.corr_stream(ctx, "kumasks", d["cases"].get("kumasks", []), mheader, "chkm",
+                            "KuMasks.all_ku_mask_lints vs five RFC key-usage bodies on every value of the nine key-usage bits (0..1023: the whole domain)")
+    common.require_outcomes(ctx, "kumasks", d["cases"].get("kumasks", []), [{"3", "6"}] * 4 + [{"3", "4"}])
+    ctx.oblige("stream kumasks is exhaustive: 1024 key-usage values", len(d["cases"].get("kumasks", [])) == 1024)
+    if not mon:
+        common.report_disagreements(ctx, "kumasks", fm, "Kernels.KuMasks.all_ku_mask_lints", [])
     ctx.oblige("dynamic pair monitor: on every certificate where both members of a pair run on the same content, the statuses agree (same status / finding iff finding / error implies finding); listed known findings excepted", not mon)
     never = d["data"].get("pairs_never_exercised") or []
     ctx.oblige("every one of the %d pairs was exercised with both members running" % d["stats"].get("pairs", 0), not never, str(never))
